@@ -132,6 +132,12 @@ def run(ck, tier, seed, scale, t0):
                 elif verdict == "inconclusive" and worst_code == 0:
                     worst_code = 2
                     print("INCONCLUSIVE Miri shard %d: %s\n%s" % (shard, rep, text[-1500:]))
+            # coverage obligations of the Miri pass, on the totals over all processes
+            need = ["sorter_inserts:observed:reallocation", "sorter_inserts:observed:spill", "sorter_inserts:observed:buffer-exactly-full", "sorter_inserts:oversized", "sorter_inserts:zero-length", "reader_ops_with_full_read_of_borrowed_slices", "merger_borrow_scenarios"]
+            unmet = [k for k in need if counts.get(k, 0) == 0]
+            if unmet and worst_code == 0:
+                worst_code = 2
+                print("INCONCLUSIVE property=C17 %s: coverage obligation not met over all processes: %s" % (pname, ", ".join(unmet)))
             sanitizer_summary[pname] = {
                 "processes": n,
                 "flags": (MIRI_FLAGS + " " + flags).strip(),
@@ -150,7 +156,7 @@ def run(ck, tier, seed, scale, t0):
         for bname, prefix, envx, label in [
             ("asan", None, {"ASAN_OPTIONS": "detect_leaks=1:halt_on_error=1:abort_on_error=0:exitcode=66"}, "asan"),
             ("tsan", None, {"TSAN_OPTIONS": "halt_on_error=1:exitcode=66"}, "tsan"),
-            ("rel", ["valgrind", "--error-exitcode=66", "--leak-check=full", "--errors-for-leak-kinds=definite", "-q"], {}, "valgrind"),
+            ("rel", ["valgrind", "--error-exitcode=66", "--leak-check=full", "--show-leak-kinds=definite", "--errors-for-leak-kinds=definite", "-q"], {}, "valgrind"),
         ]:
             binp = ck.build(bname)
             out_p = os.path.join(ck.TARGET_ROOT, "parts", "%s-C17-%s.json" % (ck.KEY, label))
